@@ -1,4 +1,6 @@
 import MalVerif.Proofs.EvalSem
+import MalVerif.Proofs.EvalFuel
+import MalVerif.Proofs.EvalStepName
 /-!
 # C01 — the generated attack graph has exactly the edges the language semantics prescribes
 
@@ -14,6 +16,11 @@ Model: `Model/Eval.lean` (`neighbours`, `closure`, `evalF`, `eval`), `Model/Gen.
 * `closure_correct`, `closure_field_correct`, `trans_field_correct` — the frontier
   loop computes the transitive closure and never runs out of fuel.
 * `eval_terminates` — no `recursion` error for acyclic variable definitions.
+* `eval_fuel_sufficient`, `eval_fuel_sufficient_of_rank`, `varsAcyclic_iff_rank`,
+  `genGraph_no_recursion` — the fuel `eval` uses (`L.varFuel`) is enough for every language with
+  acyclic variable definitions.
+* `eval_tailVar`, `eval_step_name_general`, `eval_step_name_tailVar`, `edges_iff_EdgeSpecG`,
+  `child_iff_general` — the step name of expressions ending in a variable call.
 * `edges_iff`, `edges_iff_EdgeSpec`, `child_iff` — the edge list.
 * `parents_converse` — parents are the converse of children.
 -/
@@ -301,19 +308,216 @@ example : DenF {} cexM 1 cexE (· = 1) 4 := by
     ⟨⟨2, h2, by decide⟩, ⟨2, h2, by decide⟩⟩
   exact ⟨⟨3, k3, by decide⟩, ⟨1, k1, by decide⟩⟩
 
-/- UNPROVED (not attempted; nothing below is used above)
+/-! ### the fuel of `eval` suffices for acyclic variable definitions -/
 
-1. The fuel of `eval` suffices for acyclic languages:
-   `(∀ e, ∀ v ∈ e.vars, ∀ t d, L.lookupVar t v = some d → rank d < rank e) →
-      LinksClosed m → (∀ x ∈ xs, x ∈ m.ids) → eval L m e xs ≠ .error .recursion`
-   (`eval_terminates` needs `rank e < fuel`; that a rank bounded by the number of variable
-   declarations `L.varFuel - 1` exists for every acyclic language is a pigeonhole argument on
-   chains of definitions).
-2. The step name of an expression that ends in a variable call (`tailVar e = true`): the second
-   component is then the step name of the definition selected by the first source, `none` for no
-   source.  `eval_step_name`, `edges_iff_EdgeSpec` and `child_iff` assume `tailVar e = false`
-   (every `reaches` expression the compiler emits ends in an attack step); `edges_iff` has no such
-   restriction.
--/
+/-- **The fuel the generator uses is enough.**  `eval` allows `L.varFuel` = (number of variable
+declarations) + 1 nested variable expansions.  When the variable definitions of the language are
+acyclic — the decidable check `L.varsAcyclic` (`Proofs/EvalFuel.lean`): every declared definition
+can be expanded completely within as many levels as there are declarations; equivalently
+(`varsAcyclic_iff_rank`) some rank decreases from every expression to the definitions of its
+variables — evaluation from assets of a closed model never fails with `recursion`. -/
+theorem eval_fuel_sufficient (L : Lang) (m : Inst) (e : Expr) (xs : List Int)
+    (hacyc : L.varsAcyclic = true) (hclosed : LinksClosed m) (hxs : ∀ x ∈ xs, x ∈ m.ids) :
+    eval L m e xs ≠ .error .recursion := eval_norec_of_check L m hclosed hacyc e xs hxs
 
+/-- the same from the hypothesis of `eval_terminates`: *any* rank will do, it need not be bounded
+by the fuel (a chain of nested expansions consists of pairwise different declared definitions,
+so it is no longer than the number of declarations) -/
+theorem eval_fuel_sufficient_of_rank (L : Lang) (m : Inst) (rank : Expr → Nat)
+    (hr : ∀ e, ∀ v ∈ e.vars, ∀ t d, L.lookupVar t v = some d → rank d < rank e)
+    (hclosed : LinksClosed m) (e : Expr) (xs : List Int) (hxs : ∀ x ∈ xs, x ∈ m.ids) :
+    eval L m e xs ≠ .error .recursion := eval_norec_of_rank L m hclosed rank hr e xs hxs
+
+/-- the check is exactly the existence of a rank -/
+theorem varsAcyclic_iff_rank (L : Lang) :
+    L.varsAcyclic = true ↔
+      ∃ rank : Expr → Nat, ∀ e, ∀ v ∈ e.vars, ∀ t d, L.lookupVar t v = some d → rank d < rank e :=
+  MalVerif.varsAcyclic_iff_rank L
+
+/-- what the check computes: `depthLt n e` — every variable of `e`, on every asset type, has a
+definition `d` with `depthLt (n-1) d` (none for `n = 0`) -/
+theorem depthLt_iff (L : Lang) (n : Nat) (e : Expr) :
+    L.depthLt (n+1) e = true ↔ ∀ v ∈ e.vars, ∀ t d, L.lookupVar t v = some d → L.depthLt n d = true := by
+  rw [depthLt_succ]
+  constructor
+  · intro h v hv t d hd; exact h d ((mem_callees L e d).2 ⟨v, hv, t, hd⟩)
+  · intro h d hd
+    obtain ⟨v, hv, t, ht⟩ := (mem_callees L e d).1 hd
+    exact h v hv t d ht
+
+/-- so attack-graph generation (both loops call `eval` from single assets of the model) never
+fails with `recursion` -/
+theorem genGraph_no_recursion (L : Lang) (m : Inst) (hacyc : L.varsAcyclic = true)
+    (hclosed : LinksClosed m) : genGraph L m ≠ .error .recursion :=
+  genGraph_norec L m fun e x hx =>
+    eval_fuel_sufficient L m e [x] hacyc hclosed (fun y hy => by rw [List.mem_singleton.1 hy]; exact hx)
+
+/-! ### the step name of an expression that ends in a variable call -/
+
+/-- **Ending in a variable call, operationally.**  `e` ends in a call of the variable `v`
+(`tailVarName`); `src` are the assets reaching that call: the sources themselves when `e` is just
+the call, what the evaluator returns for the rest of the expression (`dropTail e`) otherwise.
+When no asset reaches the call the result is `([], none)`.  Otherwise all assets reaching it have
+the same definition `d` of `v` — the one selected by the first of them — and the result, targets
+*and step name*, is the result of evaluating `d` from them (one level of fuel less). -/
+theorem eval_step_name_tailVar (L : Lang) (m : Inst) (f : Nat) (e : Expr) (xs : List Int)
+    (r : List Int × Option String) (h : evalF L m (f+1) e xs = .ok r) (ht : tailVar e = true) :
+    ∃ v src, tailVarName e = some v ∧
+      (match dropTail e with
+        | none => src = xs
+        | some p => ∃ a, evalF L m (f+1) p xs = .ok a ∧ a.1 = src) ∧
+      (src = [] → r = ([], none)) ∧
+      (∀ x rest, src = x :: rest → ∃ d, (m.typeOf x).bind (fun t => L.lookupVar t v) = some d ∧
+        (∀ y ∈ src, (m.typeOf y).bind (fun t => L.lookupVar t v) = some d) ∧
+        evalF L m f d src = .ok r) := evalF_tailVar L m f e xs r ht h
+
+/-- **The step name, in general.**  `StepName` (`Proofs/EvalStepName.lean`) is the step name under
+the set semantics: a step names itself, `l.r` names what `r` names from the assets `l` reaches, a
+variable call names what its definition (on a source) names, nothing else names anything.  When
+the evaluation succeeds the step name it returns is the one and only name the expression has
+from the set of sources. -/
+theorem eval_step_name_general (L : Lang) (m : Inst) (f : Nat) (e : Expr) (xs : List Int)
+    (r : List Int × Option String) (hok : TransOK L m f e) (h : evalF L m f e xs = .ok r) :
+    ∀ o, StepName L m f e (· ∈ xs) o ↔ o = r.2 := evalF_name L m f e hok xs r h
+
+/-- `StepName` extends `lastStep`: they agree on expressions that do not end in a variable call
+(so `eval_step_name_general` contains `eval_step_name`, for `TransOK` expressions) -/
+theorem stepName_eq_lastStep (L : Lang) (m : Inst) (f : Nat) (e : Expr) (ht : tailVar e = false)
+    (S : ASet) (o : Option String) : StepName L m (f+1) e S o ↔ o = lastStep e :=
+  stepName_of_not_tailVar L m f e ht S o
+
+theorem eval_step_name_single (L : Lang) (m : Inst) (e : Expr) (x : Int)
+    (r : List Int × Option String) (hok : TransOK L m L.varFuel e) (h : eval L m e [x] = .ok r) :
+    ∀ o, StepName L m L.varFuel e (· = x) o ↔ o = r.2 := by
+  intro o
+  rw [← evalF_name L m _ e hok [x] r h o]
+  have : (fun z => z ∈ [x]) = (· = x) := aset_ext fun z => List.mem_singleton
+  rw [this]
+
+/-- **Edges = specification, without the restriction on the last component.**  `EdgeSpecG` is
+`EdgeSpec` with `StepName` in the place of `lastStep` (`edgeSpecG_iff_EdgeSpec`: the same relation
+when no `reaches` expression ends in a variable call). -/
+theorem edges_iff_EdgeSpecG (L : Lang) (m : Inst) (ns : List GNode) (es : List (Nat × Nat))
+    (htr : ∀ n ∈ ns, ∀ e ∈ n.reaches, TransOK L m L.varFuel e)
+    (h : genEdges L m ns = .ok es) (a b : Nat) :
+    (a, b) ∈ es ↔ EdgeSpecG L m ns a b := by
+  rw [edges_iff L m ns es h a b]
+  unfold EdgeSpecG
+  constructor
+  · rintro ⟨n, hn, ha, e, he, r, hr, y, hy, ya, hya, t, ht, hb⟩
+    refine ⟨n, hn, ha, e, he, y, ya, t, r.2, ?_, ?_, hya, ht, hb⟩
+    · exact (eval_mem_iff_single L m e n.asset r (htr n hn e he) hr y).1 hy
+    · exact (eval_step_name_single L m e n.asset r (htr n hn e he) hr r.2).2 rfl
+  · rintro ⟨n, hn, ha, e, he, y, ya, t, o, hy, ho, hya, ht, hb⟩
+    obtain ⟨r, hr⟩ := genEdges_eval_ok L m ns es h n hn e he
+    refine ⟨n, hn, ha, e, he, r, hr, y, ?_, ya, hya, t, ?_, hb⟩
+    · exact (eval_mem_iff_single L m e n.asset r (htr n hn e he) hr y).2 hy
+    · rw [← (eval_step_name_single L m e n.asset r (htr n hn e he) hr o).1 ho]; exact ht
+
+/-- `EdgeSpecG` is `EdgeSpec` when no `reaches` expression ends in a variable call -/
+theorem EdgeSpecG_iff_EdgeSpec (L : Lang) (m : Inst) (ns : List GNode)
+    (htail : ∀ n ∈ ns, ∀ e ∈ n.reaches, tailVar e = false) (a b : Nat) :
+    EdgeSpecG L m ns a b ↔ EdgeSpec L m ns a b := edgeSpecG_iff_EdgeSpec L m ns htail a b
+
+/-- **`X:s` has child `Y:t` iff …**, also for `reaches` expressions ending in a variable call:
+`child_iff` without `htail`, the step name being the one of the set semantics. -/
+theorem child_iff_general (L : Lang) (m : Inst) (ns : List GNode) (es : List (Nat × Nat))
+    (hgen : genGraph L m = .ok (ns, es))
+    (htr : ∀ n ∈ ns, ∀ e ∈ n.reaches, TransOK L m L.varFuel e)
+    (n : GNode) (hn : n ∈ ns) (b : Nat) :
+    (n.id, b) ∈ es ↔ ∃ e ∈ n.reaches, ∃ y ya t o,
+      DenF L m L.varFuel e (· = n.asset) y ∧ StepName L m L.varFuel e (· = n.asset) o ∧
+      m.find y = some ya ∧ nameIndex ns (ya.name ++ ":" ++ o.getD "None") = some t ∧ t.id = b := by
+  unfold genGraph at hgen
+  obtain ⟨ns', hns, hgen⟩ := (bind_ok_iff _ _ _).1 hgen
+  obtain ⟨es', hes, hgen⟩ := (bind_ok_iff _ _ _).1 hgen
+  cases hgen
+  rw [edges_iff_EdgeSpecG L m ns es htr hes]
+  unfold EdgeSpecG
+  constructor
+  · rintro ⟨n', hn', e, h⟩
+    rw [genNodes_id_inj L m ns hns n' n hn' hn e] at h
+    exact h
+  · intro h; exact ⟨n, hn, rfl, h⟩
+
+/-! ### non-vacuity: two chained variables, a `reaches` expression ending in a variable call -/
+
+/-- `c01L2`: `let v = next.w()`, `let w = next.compromise`, `access -> v()`: acyclic, fuel 3 -/
+example : c01L2.varsAcyclic = true ∧ c01L2.varFuel = 3 := by decide
+
+/-- from asset 1: `v()` = `next.w()` = `next.next.compromise` reaches asset 3 and names `compromise` -/
+example : eval c01L2 c01M (.var "v") [1] = .ok ([3], some "compromise") := by decide
+
+/-- the fuel is tight: one level less is not enough for the chain `v() → w() → next.compromise` -/
+example : evalF c01L2 c01M 2 (.var "v") [1] = .error .recursion := by decide
+
+/-- `eval_fuel_sufficient` applies to `c01L2` and `c01M`: every expression, all sources -/
+example (e : Expr) (xs : List Int) (hxs : ∀ x ∈ xs, x ∈ c01M.ids) :
+    eval c01L2 c01M e xs ≠ .error .recursion :=
+  eval_fuel_sufficient c01L2 c01M e xs (by decide) (by decide) hxs
+
+example : genGraph c01L2 c01M ≠ .error .recursion := genGraph_no_recursion c01L2 c01M (by decide) (by decide)
+
+/-- the hypothesis cannot be dropped: `let v = w()`, `let w = next.v()` fails the check, and the
+evaluation of `v()` runs out of fuel -/
+example : c01Lcyc.varsAcyclic = false ∧ eval c01Lcyc c01M (.var "v") [1] = .error .recursion := by decide
+
+/-- the step name of an expression ending in a variable call is not `lastStep` (`eval_step_name`
+needs `tailVar e = false`) … -/
+example : tailVar (.var "v") = true ∧ lastStep (.var "v") = none ∧
+    (eval c01L2 c01M (.var "v") [1]).map (·.2) = .ok (some "compromise") := by decide
+
+/-- the hypothesis `TransOK` holds for the `reaches` expression `v()` of `c01L2` (no `*` anywhere) -/
+theorem c01L2_transOK : TransOK c01L2 c01M c01L2.varFuel (.var "v") := by
+  show TransOK c01L2 c01M 3 (.var "v")
+  apply transOK_of_starOK_aux
+  simp only [StarOK, StarOKE]
+  intro t d h
+  obtain ⟨a, ha, hv⟩ := lookupVar_mem c01L2 t "v" d h
+  simp only [c01L2, List.mem_cons, List.not_mem_nil, or_false] at ha
+  rcases ha with rfl | rfl
+  · simp at hv; subst hv
+    simp only [StarOKE, true_and]
+    intro t' d' h'
+    obtain ⟨a', ha', hv'⟩ := lookupVar_mem c01L2 t' "w" d' h'
+    simp only [c01L2, List.mem_cons, List.not_mem_nil, or_false] at ha'
+    rcases ha' with rfl | rfl
+    · simp at hv'; subst hv'; simp only [StarOKE, and_self]
+    · simp at hv'
+  · simp at hv
+
+/-- … it is the name `StepName` gives: from `{1}`, `v()` names `compromise` and nothing else -/
+example : ∀ o, StepName c01L2 c01M c01L2.varFuel (.var "v") (· = 1) o ↔ o = some "compromise" :=
+  eval_step_name_single c01L2 c01M (.var "v") 1 ([3], some "compromise") c01L2_transOK (by decide)
+
+/-- the generated graph of `c01L2` over `c01M` (cycle `1 → 2 → 3 → 1`, asset 3 also linked to itself):
+every `access` (nodes 0, 2, 4) reaches the `compromise` (nodes 1, 3, 5) of the assets two `next` steps
+further on — edges through a `reaches` expression that ends in a variable call; the hypothesis of
+`edges_iff_EdgeSpecG` / `child_iff_general` holds for it -/
+example : ∃ ns es, genGraph c01L2 c01M = .ok (ns, es) ∧
+    es = [(0, 5), (2, 1), (2, 5), (4, 3), (4, 1), (4, 5)] ∧
+    (∀ n ∈ ns, ∀ e ∈ n.reaches, TransOK c01L2 c01M c01L2.varFuel e) ∧
+    (∀ n ∈ ns, n.step = "access" → ∀ e ∈ n.reaches, tailVar e = true) := by
+  have h1 : (genGraph c01L2 c01M).map (·.2) = .ok [(0, 5), (2, 1), (2, 5), (4, 3), (4, 1), (4, 5)] := by
+    decide
+  have h2 : (genGraph c01L2 c01M).map (fun p => p.1.all (fun n => n.reaches.all (· = .var "v"))) = .ok true := by
+    decide
+  cases h : genGraph c01L2 c01M with
+  | error err => rw [h] at h1; cases h1
+  | ok p =>
+    obtain ⟨ns, es⟩ := p
+    rw [h] at h1 h2
+    simp only [Except.map, Except.ok.injEq] at h1 h2
+    have h3 : ∀ n ∈ ns, ∀ e ∈ n.reaches, e = .var "v" := by
+      intro n hn e he
+      simpa using List.all_eq_true.1 (List.all_eq_true.1 h2 n hn) e he
+    refine ⟨ns, es, rfl, h1, ?_, ?_⟩
+    · intro n hn e he; rw [h3 n hn e he]; exact c01L2_transOK
+    · intro n hn _ e he; rw [h3 n hn e he]; rfl
+
+/- UNPROVED: nothing of the former list is left.  (`eval_fuel_sufficient` and
+`eval_fuel_sufficient_of_rank` settle item 1; `eval_step_name_tailVar`, `eval_step_name_general`,
+`edges_iff_EdgeSpecG` and `child_iff_general` item 2.  `eval_step_name_general`, `edges_iff_EdgeSpecG`
+and `child_iff_general` keep the hypothesis `TransOK` of `eval_mem_iff`, which is necessary there;
+the purely operational `eval_step_name_tailVar` needs no hypothesis.) -/
 end MalVerif.C01
